@@ -52,6 +52,18 @@ type Spec struct {
 	Assumptions []string          `json:"assumptions"`
 	Outside     []string          `json:"outside"`
 	Internal    []string          `json:"internal_identifiers,omitempty"`
+	// native replay only: build tags of murex itself to compile with, and textual substitutions
+	// applied to the *current* repo sources (overlay; e.g. time.Now() -> the harness clock) so a
+	// counterexample that depends on an environment value can be replayed on compiled code
+	ReplayTags    string          `json:"replay_tags,omitempty"`
+	ReplayRewrite []RewriteSpec   `json:"replay_rewrite,omitempty"`
+}
+
+type RewriteSpec struct {
+	File string `json:"file"` // path relative to the repo
+	From string `json:"from"`
+	To   string `json:"to"`
+	Min  int    `json:"min"` // the substitution must apply at least this many times
 }
 
 type KnownFinding struct {
@@ -529,7 +541,12 @@ func nativeReplay(vdir string, spec *Spec, hdir string, h HarnessSpec, pkgPath, 
 		defer os.Unsetenv("VERIF_RUNS")
 	}
 	out, err := runNative(vdir, spec, hdir, pkgPath, fn, replayPath, "replay", 60)
-	_ = err
+	if err != nil && !strings.Contains(out, "VERIF-REPLAY:") && !strings.HasPrefix(out, "native harness does not compile") &&
+		(strings.Contains(out, "\npanic: ") || strings.HasPrefix(out, "panic: ") || strings.Contains(out, "fatal error: ")) && strings.Contains(out, "goroutine ") {
+		// the compiled harness died before it could report: a panic outside the harness goroutine
+		// (every harness-side failure is recovered and reported through a marker) kills the process
+		return true, "VERIF-REPLAY: REPRODUCED crash: the native process died of an uncaught panic\n" + out
+	}
 	return strings.Contains(out, "VERIF-REPLAY: REPRODUCED"), out
 }
 
@@ -612,13 +629,30 @@ func TestVerifNative(t *testing.T) {
 		repl[filepath.Join(repo, virt)] = filepath.Join(hdir, real)
 	}
 	repl[filepath.Join(repo, rel, "zz_verif_native_test.go")] = testFile
+	for k, rw := range spec.ReplayRewrite {
+		src, err := os.ReadFile(filepath.Join(repo, rw.File))
+		if err != nil {
+			return "replay rewrite: " + err.Error(), err
+		}
+		if strings.Count(string(src), rw.From) < rw.Min || rw.Min < 1 {
+			err := fmt.Errorf("replay rewrite of %s: %q occurs %d times, expected at least %d", rw.File, rw.From, strings.Count(string(src), rw.From), rw.Min)
+			return err.Error(), err
+		}
+		out := filepath.Join(tmp, fmt.Sprintf("rewrite%d.go", k))
+		os.WriteFile(out, []byte(strings.ReplaceAll(string(src), rw.From, rw.To)), 0o644)
+		repl[filepath.Join(repo, rw.File)] = out
+	}
 	ovb, _ := json.Marshal(map[string]interface{}{"Replace": repl})
 	ovf := filepath.Join(tmp, "overlay.json")
 	os.WriteFile(ovf, ovb, 0o644)
 	// compile the test binary, then run it (the package directory may exist only in the overlay)
 	bin := filepath.Join(tmp, "native.test")
 	var buf bytes.Buffer
-	cc := exec.Command("go", "test", "-c", "-vet=off", "-overlay", ovf, "-o", bin, "./"+rel)
+	ccArgs := []string{"test", "-c", "-vet=off", "-overlay", ovf, "-o", bin}
+	if spec.ReplayTags != "" {
+		ccArgs = append(ccArgs, "-tags", spec.ReplayTags)
+	}
+	cc := exec.Command("go", append(ccArgs, "./"+rel)...)
 	cc.Dir = repo
 	cc.Env = append(os.Environ(), "GOFLAGS=-mod=mod", "GOPROXY=off")
 	cc.Stdout = &buf
